@@ -17,7 +17,7 @@ RULE = (
     "repeats), 1-6 full decay lines of the mother nested to depth 3 over a pinned pool of 30 resonance names, daughters "
     "written bare with 0-3 separately given alternative lines per name (which may again contain bare names), [S|P|D], "
     "[lineshape] and [D;lineshape] tags, couplings in every numeric literal form with fix flags 0/2/3, 0-8 parameter lines "
-    "and 0-5 constant lines (names with '::'), Output/nEvents options, the coherent-sum option absent/0/1, comments, blank "
+    "and 0-5 constant lines (names with '::'), Output/nEvents options, single-component and 'a = b' lines (grammar kinds that are read and ignored), the coherent-sum option absent/0/1, comments, blank "
     "lines, CRLF, items in any order. Oracle: reference expansion over the AST (cartesian product, file order, left-most "
     "slowest); str(line), tags, coupling (|.|*exp(i phase), or re+i*im under the cartesian option) within 1e-12 at every node, "
     "parameter/constant rows in order, event-type particles by pinned PDG ID; no exception for any generated text. "
@@ -100,6 +100,12 @@ def c17_case(draw):
         items.append({"k": "output", "v": draw(st.sampled_from(("out.root", "a b.root", "x#y")))})
     if draw(st.integers(0, 3)) == 0:
         items.append({"k": "nevents", "v": draw(st.integers(0, 100000))})
+    # the two other line kinds of the options grammar: read without error, no influence on the result
+    for _ in range(draw(st.sampled_from((0, 0, 0, 1, 2)))):
+        junk = []
+        items.append({"k": "cartline", "t": draw(decay_tree(draw(st.sampled_from(sorted(A.RES))), 2, junk, )), "c": draw(coupling())[:3]})
+    if draw(st.sampled_from((False, False, False, True))):
+        items.append({"k": "invert", "a": draw(st.sampled_from(sorted(A.RES))), "b": draw(st.sampled_from(sorted(A.RES)))})
     head = items[:1] if draw(st.booleans()) else []
     rest = items[1:] if head else items
     rest = list(draw(st.permutations(rest)))
